@@ -2,6 +2,8 @@ package main
 
 import (
 	"go/ast"
+	"go/importer"
+	"go/types"
 	"go/parser"
 	"go/token"
 )
@@ -157,6 +159,13 @@ func c1ClassifyRegion(src string) string {
 				}
 			}
 		case *ast.AssignStmt:
+			if x.Tok == token.ASSIGN && len(x.Lhs) == 1 && len(x.Rhs) == 1 {
+				if _, ok := x.Lhs[0].(*ast.ParenExpr); ok {
+					if _, ok := c1Unparen(x.Rhs[0]).(*ast.CompositeLit); ok {
+						set("paren-dst-lit")
+					}
+				}
+			}
 			if x.Tok == token.ASSIGN && len(x.Rhs) == 1 {
 				if call, ok := c1Unparen(x.Rhs[0]).(*ast.CallExpr); ok {
 					if fid, ok := call.Fun.(*ast.Ident); ok && namedFn[fid.Name] {
@@ -191,6 +200,43 @@ func c1ClassifyRegion(src string) string {
 			}
 		}
 		return true
+	})
+	if region == "" {
+		region = c1TypedRegion(fset, f)
+	}
+	return region
+}
+
+// c1TypedRegion: regions that need the types of the operands (decided with go/types).
+//
+//  multi-assign-iface  tuple assignment `a, b = x, y` with a destination of interface type
+func c1TypedRegion(fset *token.FileSet, f *ast.File) string {
+	hasTuple := false
+	ast.Inspect(f, func(n ast.Node) bool {
+		if as, ok := n.(*ast.AssignStmt); ok && as.Tok == token.ASSIGN && len(as.Lhs) > 1 && len(as.Rhs) > 1 {
+			hasTuple = true
+		}
+		return !hasTuple
+	})
+	if !hasTuple {
+		return ""
+	}
+	c1ImpOnce.Do(func() { c1Imp = importer.ForCompiler(token.NewFileSet(), "source", nil) })
+	info := &types.Info{Types: map[ast.Expr]types.TypeAndValue{}}
+	conf := types.Config{Importer: lockedImporter{}, GoVersion: "go1.22", Error: func(error) {}}
+	conf.Check("main", fset, []*ast.File{f}, info)
+	region := ""
+	ast.Inspect(f, func(n ast.Node) bool {
+		if as, ok := n.(*ast.AssignStmt); ok && as.Tok == token.ASSIGN && len(as.Lhs) > 1 && len(as.Rhs) > 1 {
+			for _, l := range as.Lhs {
+				if tv, ok := info.Types[l]; ok && tv.Type != nil {
+					if _, isI := tv.Type.Underlying().(*types.Interface); isI {
+						region = "multi-assign-iface"
+					}
+				}
+			}
+		}
+		return region == ""
 	})
 	return region
 }
